@@ -8,6 +8,7 @@ import (
 	"fmt"
 	"go/types"
 	"os"
+	"os/exec"
 	"runtime/debug"
 	"runtime/pprof"
 	"sort"
@@ -35,6 +36,7 @@ type HarnessResult struct {
 	QUnsat        int               `json:"queries_unsat"`
 	QUnknown      int               `json:"queries_unknown"`
 	FlatQueries   int               `json:"queries_one_shot"`
+	FlatByCvc5    int               `json:"queries_one_shot_decided_by_cvc5"`
 	SolverTimeS   float64           `json:"solver_time_s"`
 	WallS         float64           `json:"wall_s"`
 	Steps         int64             `json:"ssa_steps"`
@@ -324,6 +326,9 @@ func runHarness(prog *ssa.Program, buildPkg func(*ssa.Package), fn *ssa.Function
 			e.flatBin = o.flatSolver
 		}
 		e.flatTimeoutMs = o.timeoutMs
+		if _, err := exec.LookPath("cvc5"); err == nil && !strings.Contains(e.flatBin, "cvc5") {
+			altFlat = "cvc5"
+		}
 	}
 	flat = flatStats{}
 	e.unwind = o.unwind
@@ -438,7 +443,7 @@ func runHarness(prog *ssa.Program, buildPkg func(*ssa.Package), fn *ssa.Function
 	}
 	res := HarnessResult{Harness: name, Paths: e.paths, OkPaths: e.okPaths, Infeasible: e.infeasiblePaths, Decisions: e.decisionsTotal,
 		Queries: solver.queries + flat.queries, QSat: solver.nSat + flat.sat, QUnsat: solver.nUnsat + flat.unsat, QUnknown: solver.nUnknown,
-		FlatQueries: flat.queries,
+		FlatQueries: flat.queries, FlatByCvc5: flat.byAlt,
 		SolverTimeS: solver.solveTime.Seconds() + solver.syncTime.Seconds() + flat.time.Seconds(), WallS: time.Since(t0).Seconds(), Steps: in.steps,
 		Violations: e.violations, Inconclusive: e.inconclusive, Covers: e.covers, Traces: e.traces, Samples: e.samples,
 		Functions: sortedKeys(e.funcsExecuted), Intrinsics: sortedKeys(e.intrinsicsHit), Stubs: sortedKeys(e.stubsHit),
